@@ -904,7 +904,35 @@ fn check_params_and_laziness(e: &Exec, out: &mut Vec<Violation>) {
             c16_done = true;
         }
     }
-    // parameters in effect at the terminal: with num_threads(1) in effect everything runs on the caller
+    // parameters in effect at the terminal, as resolved by the runner for the terminal's own run (hook RunBegin)
+    if e.obs.is_ok() && c.faults.is_empty() && !c16_done {
+        if let Some(last) = e.runs.last() {
+            let bad = match cs {
+                MCs::Exact(x) => {
+                    if !last.exact || last.chunk_size != x {
+                        Some(format!("chunk size Exact({}) was in effect at the terminal call, the run used {}({})", x, if last.exact { "Exact" } else { "Min" }, last.chunk_size))
+                    } else {
+                        None
+                    }
+                }
+                MCs::Min(_) | MCs::Auto => {
+                    if last.exact {
+                        Some(format!("chunk size {:?} was in effect at the terminal call, the run used Exact({})", cs, last.chunk_size))
+                    } else {
+                        None
+                    }
+                }
+            };
+            let bad = bad.or(match nt {
+                MNt::Max(n) if n >= 2 && last.max_num_threads > n => Some(format!("num_threads Max({}) was in effect at the terminal call, the run allowed {} threads", n, last.max_num_threads)),
+                _ => None,
+            });
+            if let Some(m) = bad {
+                out.push(v("C16", "params-at-terminal", m));
+            }
+        }
+    }
+    // with num_threads(1) in effect everything runs on the caller
     if matches!(nt, MNt::Max(1)) && e.obs.is_ok() && c.faults.is_empty() && !c16_done {
         let foreign = e.calls().iter().any(|k| k.tkey != e.caller_tkey);
         if foreign || e.worker_begins > 0 {
